@@ -22,6 +22,7 @@ from .. import models, pipeline, quant, tlc
 from . import manager
 from . import deton
 from . import configload
+from . import setup as setupdrv
 
 LEVEL = "model_checking"
 VT = 1e-7
@@ -421,7 +422,8 @@ def run(chk, tier, seed):
         a3 = pool.map_async(manager.fresh, pairs, chunksize=1)
         a4 = pool.map_async(scripted_iterations, [(seed * 100 + q, 150 if tier == "quick" else 600) for q in range(2 if tier == "quick" else 8)], chunksize=1)
         a5 = pool.map_async(deton.scripted_searches, [(seed * 100 + q, 100 if tier == "quick" else 400) for q in range(2 if tier == "quick" else 8)], chunksize=1)
-        traces, hevs, refs, scripted, dsearch = a1.get(), a2.get(), a3.get(), a4.get(), a5.get()
+        a6 = pool.map_async(setupdrv.scenario, setupdrv.scenarios(tier, seed), chunksize=1)
+        traces, hevs, refs, scripted, dsearch, straces = a1.get(), a2.get(), a3.get(), a4.get(), a5.get(), a6.get()
     htraces = []
     for i, (b, evs) in enumerate(zip(behs, hevs)):
         used = {(op["p"], "info") for op in b if op["op"] == "Setup" and op["kind"] == "good"} | {(pt, op["c"]) for op in b for pt in _points_of_calls(b, op)}
@@ -464,6 +466,12 @@ def run(chk, tier, seed):
     chk.add_validation(tlc.validate("TraceConfigLoad.tla", "TraceConfigLoad.cfg", ctraces), ctraces, what="configuration loading")
     chk.extra.update(config_load_sequences=len(ctraces), config_loads=sum(1 for t in ctraces for e in t["ev"] if e["e"] == "Load"),
                      config_loads_raising=sum(1 for t in ctraces for e in t["ev"] if e["e"] == "Load" and e["out"] != "ok"))
+    # where the installed thermodynamics / hydrodynamics come from: the set-up call, step by step, with its error exits
+    chk.add_model(tlc.run_model("Setup.tla", "Setup.cfg", timeout=900), label="set-up protocol: order of steps, error exits, decision table of the traced temperature ranges")
+    chk.add_model(tlc.run_model("Setup.tla", "SetupLate.cfg", timeout=900), expect_violation="FailureLeavesNothing",
+                  label="documented counterexample: a set-up failing after validatePhaseInput has already replaced phases / thermodynamics")
+    chk.add_validation(tlc.validate("TraceSetup.tla", "TraceSetup.cfg", straces), straces, what="set-up call")
+    chk.extra.update(setup_calls_validated=len(straces), setup_outcomes={o: sum(1 for t in straces if t["ev"][-1].get("out") == o) for o in sorted({t["ev"][-1].get("out") for t in straces})})
     # the detonation search on scripted pressure functions, against DetonSearch.tla
     for o in ("TRUE", "FALSE"):
         chk.add_model(tlc.run_model("DetonSearch.tla", f"DetonSearch_{o}.cfg", timeout=1200),
@@ -505,6 +513,12 @@ def run(chk, tier, seed):
 def replay(chk, path):
     with open(path) as f:
         tr = json.load(f)
+    if tr["cell"].get("kind") == "setup":
+        new = setupdrv.scenario({k: v for k, v in tr["cell"].items() if k != "kind"})
+        for ev in new["ev"]:
+            print(json.dumps(ev)[:300])
+        chk.add_validation(tlc.validate("TraceSetup.tla", "TraceSetup.cfg", [new]), [new])
+        return chk.finish()
     if tr["cell"].get("kind") == "history":
         b = tr["cell"]["behaviour"]
         evs = manager.execute(b)
